@@ -2,7 +2,7 @@
   C18 helper lemmas: byte-buffer operations (`slice`, `writeAt`) and the abstract reader.
 -/
 import CedarGo.Model.Text.Scanner
-namespace CedarGo.Text
+namespace CedarGo.Text.Lx
 
 theorem slice_length (b : List UInt8) (i j : Nat) (h : j ≤ b.length) : (slice b i j).length = j - i := by
   simp [slice]; omega
@@ -146,4 +146,4 @@ theorem Reader.read_eof (r : Reader) (m : Nat) (he : (r.read m).2.1 = .eof) : r.
       · simp at he
     · simp [Reader.read_cons_gt _ _ _ _ h] at he
 
-end CedarGo.Text
+end CedarGo.Text.Lx
